@@ -8,7 +8,7 @@ type = oto | m2m | fd ; a token is `/`-separated, objects are natural-number ids
 `<s>` is the side (`f` forward object, `i` its `.inv`), pairs are `k:v,k:v` (`-` = empty).
 
 oto:  MI/<pairs> (caller creates and keeps a one-shot iterator)  NX/<i> (caller takes one item off iterator i)
-      N/<arg>/<kw>  Q/<arg>/<kw>  C/<r>/<s>  S/<r>/<s>/<k>/<v>  D/<r>/<s>/<k>  U/<r>/<s>/<arg>/<kw>
+      N/<arg>/<kw>[/<pairs> = the items the implementation's instance holds: accepted if admissible]  Q/<arg>/<kw>  C/<r>/<s>  S/<r>/<s>/<k>/<v>  D/<r>/<s>/<k>  U/<r>/<s>/<arg>/<kw>
       arg = n | d<pairs> (dict, raw) | p<pairs> (list) | j<pairs> (iterator made for the call) | i<idx> (held iterator)
             | r<r>.<s> (another instance); kw = raw keyword pairs
       F/<r>/<s>/<k>/<d>  P/<r>/<s>/<k>/<d|->  I/<r>/<s>[/<k>:<v> = the pair the implementation popped]  L/<r>/<s>
@@ -81,6 +81,9 @@ def otoTok? (tok : String) : Option (OtoCmdA Nat) :=
   | ["N", a, kw] => match arg? a, parsePairs? kw with
     | some a, some kw => some (.new a kw)
     | _, _ => none
+  | ["N", a, kw, hint] => match arg? a, parsePairs? kw, parsePairs? hint with
+    | some a, some kw, some hint => some (.newAs a kw hint)
+    | _, _, _ => none
   | ["Q", a, kw] => match arg? a, parsePairs? kw with
     | some a, some kw => some (.unique a kw)
     | _, _ => none
